@@ -42,6 +42,7 @@ type Profile struct {
 	DupLabels  bool
 	NoStaleCtx bool // predicates/state blocks do not observe c.text / c.pos (avoid Q-STALE-CTX)
 	NoFFFDLit  bool // no literal contains U+FFFD (avoid Q-LIT-EOF)
+	SharedLeaf int  // percentage of grammars led by a rule that uses one class-bodied leaf rule in several mergeable choices
 	TwoLR      int  // percentage of grammars made of two (or three) separate mutually left-recursive components
 	MemoPred   int  // percentage of sequences that start with an optional labelled item followed by a predicate on that label
 	UntilIdiom int  // percentage of sequences that are the "until" idiom (!"x" .)* !.
@@ -1025,6 +1026,41 @@ func GenGrammar(p *Profile, seed int64) (rules []*Rule, blocks map[int]*Block, g
 		star.Kids = []*Node{alt}
 		star.Many = true
 		rules = append([]*Rule{{Name: "S", Expr: star}}, rules...)
+	}
+	if p.SharedLeaf > 0 && g.pct(p.SharedLeaf) {
+		// Sv <- (V / "y") (V / "w") (V / [xz])? R0? ; V <- [aei] : the leaf rule is inlined at every reference and each
+		// copy is merged with its own neighbour - the copies must not share anything
+		mk := func(k Kind) *Node { return g.newNode(k) }
+		ref := func(nm string) *Node { n := mk(KRef); n.Ref = nm; return n }
+		lit := func(sv string) *Node { n := mk(KLit); n.Lit = sv; return n }
+		alt := func(ks ...*Node) *Node { n := mk(KAlt); n.Kids = ks; return n }
+		opt := func(k *Node) *Node { n := mk(KOpt); n.Kids = []*Node{k}; return n }
+		leaf := mk(KCls)
+		leaf.Cls = []string{"[a]", "[aei]", "[aeiou]", "[a-cx-z0-9]", "[abc0-2x-z+]", "[ab1]", "[c0+ax]"}[g.r.Intn(7)]
+		extra := []string{"y", "w", "B", "A", "1", " "}
+		g.r.Shuffle(len(extra), func(i, j int) { extra[i], extra[j] = extra[j], extra[i] })
+		seq := mk(KSeq)
+		nuse := 2 + g.r.Intn(2)
+		for i := 0; i < nuse; i++ {
+			var c *Node
+			if g.pct(50) {
+				c = alt(ref("V"), lit(extra[i]))
+			} else {
+				c = alt(lit(extra[i]), ref("V"))
+			}
+			if i >= 2 {
+				c = opt(c)
+			}
+			seq.Kids = append(seq.Kids, c)
+		}
+		cls2 := mk(KCls)
+		cls2.Cls = "[" + extra[4] + extra[5] + "]"
+		seq.Kids = append(seq.Kids, opt(alt(ref("V"), cls2)))
+		if len(rules) > 0 {
+			seq.Kids = append(seq.Kids, opt(ref(rules[0].Name)))
+		}
+		rules = append([]*Rule{{Name: "Sv", Expr: seq}}, rules...)
+		rules = append(rules, &Rule{Name: "V", Expr: leaf})
 	}
 	for _, r := range rules {
 		r.Expr = normalize(r.Expr)
